@@ -293,20 +293,46 @@ class ExecutionState:
         with self._operations_lock:
             self.operations.update({op.operation_id: op for op in all_operations})
 
+    _TERMINAL_STATUSES = frozenset(
+        {
+            OperationStatus.SUCCEEDED,
+            OperationStatus.FAILED,
+            OperationStatus.CANCELLED,
+            OperationStatus.STOPPED,
+            OperationStatus.TIMED_OUT,
+        }
+    )
+
+    def _is_inside_completed_context(self, op: Operation) -> bool:
+        """True if an ancestor context of op has completed without asking for its children to be replayed.
+
+        Such a context returns its recorded outcome without running its body again, so the
+        operations inside it are never visited during replay.
+        """
+        parent_id = op.parent_id
+        seen: set[str] = set()
+        while parent_id and parent_id not in seen:
+            seen.add(parent_id)
+            parent = self.operations.get(parent_id)
+            if parent is None:
+                return False
+            if (
+                parent.operation_type is OperationType.CONTEXT
+                and parent.status in self._TERMINAL_STATUSES
+                and not (parent.context_details and parent.context_details.replay_children)
+            ):
+                return True
+            parent_id = parent.parent_id
+        return False
+
     def _completed_operation_ids(self) -> set[str]:
-        """Ids of the operations (other than EXECUTION) that have reached a terminal status."""
+        """Ids of the completed operations (other than EXECUTION) that a replay will visit."""
         return {
             op_id
             for op_id, op in self.operations.items()
             if op.operation_type != OperationType.EXECUTION
-            and op.status
-            in {
-                OperationStatus.SUCCEEDED,
-                OperationStatus.FAILED,
-                OperationStatus.CANCELLED,
-                OperationStatus.STOPPED,
-                OperationStatus.TIMED_OUT,
-            }
+            and op.status in self._TERMINAL_STATUSES
+            and not self._is_inside_completed_context(op)
         }
 
     def start_replay_if_history_has_completed_operations(self) -> None:
